@@ -54,6 +54,18 @@ theorem one_consult_per_release (h : Reachable w m d s) :
 theorem elapsed_monotone (h : Reachable w m d s) : (s.paceLog.reverse.map (·.1)).Pairwise (· ≤ ·) :=
   aux_log_sorted _ (pace_reachable h).log
 
+/-- **The elapsed time handed to the pacer is the true one**: a consultation happens at the
+current clock value, which is never earlier than any hit released before it (so time the loop
+spent blocked handing over the previous hit is included). -/
+theorem consult_not_before_previous_releases (h : Reachable w m d s) (s' : St) (wt : Int)
+    (hp : step s (.paceWait wt) = some s') :
+    ∃ rest, s'.paceLog = (s.now, s.count, some wt) :: rest ∧ ∀ r ∈ s.releases, r ≤ s.now := by
+  have p := pace_reachable h
+  simp only [step] at hp
+  split at hp
+  · simp at hp; subst hp; exact ⟨s.paceLog, rfl, p.relnow⟩
+  · cases hp
+
 /-- **No hit starts earlier than the wait the pacer returned for it**: whenever a tick is handed
 to a worker, the latest consultation was made with the current count, returned a wait `w`
 (not stop), and at least `w` has elapsed since it. -/
